@@ -361,6 +361,7 @@ pub const ALPHABETS: &[&[&str]] = &[
     &["&", "<", ">", "\"", "'", "a", ";", "&amp;"],
     &[" ", "  ", "\n", "\t", "a", "b", "\r\n"],
     &["é", "ß", "日本", "😀", "𝄞", "Ω", "a"],
+    &["a", "\u{1}", "\u{b}", "\u{1f}", "b", "_x0041_", "\u{7f}"],
 ];
 
 pub fn gen_text(rng: &mut Rng, alpha: usize, max_parts: usize) -> String {
